@@ -89,7 +89,7 @@ def opInstance : Op := fun j => do
 def opBounds : Op := fun _ => do
   pure (jBoundsTable obsBounds)
 
-/-- {cfg} → the model's `obsSpec` (both leaves, incl. the 729-entry `action_mask` leaf that is not in Gen/Specs.lean),
+/-- {cfg} → the model's `obsSpec` (both leaves, incl. the 729-entry `action_mask` leaf; both are also in Gen/Specs.lean since leaves are cut by the size of their bounds),
     `actionSpec`, reward and discount spec in the `speclib.leaf_json` layout, and `generate_value()` of the action spec -/
 def opSpec : Op := fun _ => do
   pure (jObj [("observation_spec", SpecOps.jNested obsSpec), ("action_spec", SpecOps.jLeaf actionSpec),
